@@ -23,7 +23,7 @@ def rebase(name):
             shutil.copy(so, os.path.join(wt, 'fastparquet'))
         demo = os.path.join(wt, '_demo_seed.py')
         txt = open(os.path.join(sd, 'demo.py')).read()
-        for root in ('/tmp/seed/', '/tmp/seed2/', '/tmp/seed3/', '/tmp/seed4/', '/tmp/seed5/'):
+        for root in ('/tmp/seed/', '/tmp/seed2/', '/tmp/seed3/', '/tmp/seed4/', '/tmp/seed5/', '/tmp/seed6/', '/tmp/seed7/'):
             pid = name.split('-')[0]
             txt = txt.replace(root + pid, wt)
         open(demo, 'w').write(txt)
